@@ -1,5 +1,11 @@
-import RecipeGrid.Model.Compiler
-/-! C05 — nothing written is lost, duplicated or reordered by compilation. -/
+import RecipeGrid.Lemmas.Fold
+/-! C05 — nothing written is lost, duplicated or reordered by compilation.
+
+    `compile` = elaboration (`elabBlocks`, characterised in `Props/C01.lean`), then the inlining loop, then the validity
+    check (`Props/C08b.lean`).  Here: the inlining loop keeps every written ingredient and step node exactly once
+    (C05.1), keeps the remaining roots of every block in statement order, each being the original root rewritten by
+    the inlining substitutions (C05.3), and keeps the expansion of every remaining root (C05.2).
+    Helper lemmas and the loop invariants are in `Lemmas/Fold.lean`. -/
 namespace RG.C05
 
 /-- `list.remove` drops exactly one element and keeps the order of the others -/
@@ -24,6 +30,250 @@ theorem removeFirst_sublist (x : Tree) (ts ts' : List Tree) (h : removeFirst x t
     · cases h; exact List.sublist_cons_self t rest
     · cases hr : removeFirst x rest with
       | none => simp [hr] at h
-      | some r => simp [hr] at h; subst h; exact (ih r hr).cons₂ t
+      | some r => simp [hr] at h; subst h; exact (ih r hr).cons_cons t
+
+-- ================================================================ specification
+
+/-- what is written: an ingredient (description, quantity) or a step (description, number of inputs) -/
+inductive Node where
+  | ingredient (d : SVS) (q : Option Quantity)
+  | step (d : SVS) (arity : Nat)
+deriving DecidableEq
+
+mutual
+/-- the ingredient and step nodes of a tree OUTSIDE embedded copies (a reference contributes nothing: the copy it
+    holds repeats a definition that stands elsewhere), in written order -/
+def nodesOf : Tree → List Node
+  | .ingredient d q => [.ingredient d q]
+  | .step d inputs => .step d inputs.length :: nodesOfList inputs
+  | .reference .. => []
+  | .sub body _ _ => nodesOf body
+def nodesOfList : List Tree → List Node
+  | [] => []
+  | t :: ts => nodesOf t ++ nodesOfList ts
+end
+
+/-- the written nodes of a whole recipe -/
+def nodesOfBlocks (bs : List Block) : List Node := bs.flatten.flatMap nodesOf
+
+mutual
+/-- the pure step/ingredient tree a recipe tree stands for: every reference is replaced by the expansion of the sub
+    recipe copy it holds; sub recipe wrappers and amounts are dropped -/
+def expand : Tree → Tree
+  | .ingredient d q => .ingredient d q
+  | .step d inputs => .step d (expandList inputs)
+  | .reference sub _ _ => expand sub
+  | .sub body _ _ => expand body
+def expandList : List Tree → List Tree
+  | [] => []
+  | t :: ts => expand t :: expandList ts
+end
+
+/-- a composition of inlining substitutions: each one replaces the references to a sub recipe `.sub body ns sh` by
+    that sub recipe (`:=` definitions) or by its body -/
+inductive InlineChain : (Tree → Tree) → Prop
+  | nil : InlineChain id
+  | step {σ : Tree → Tree} (body : Tree) (ns : List SVS) (sh : Bool) (idx : Nat) (a : Amount) (unwrap : Bool) :
+      InlineChain σ →
+      InlineChain (fun t => Tree.subst (.reference (.sub body ns sh) idx a)
+        (if unwrap then body else .sub body ns sh) (σ t))
+
+/-- the roots of `bs'` descend from the roots of `bs`: same number of blocks; block by block the roots of `bs'` are
+    the images under ONE composition `σ` of inlining substitutions of a sublist `kept` (same relative order) of the
+    roots of `bs`, and each image has the expansion of its original -/
+def Descends (bs bs' : List Block) : Prop :=
+  ∃ σ : Tree → Tree, InlineChain σ ∧ bs'.length = bs.length ∧
+    ∀ (b : Nat) (ts' : List Tree), bs'[b]? = some ts' →
+      ∃ ts kept, bs[b]? = some ts ∧ List.Sublist kept ts ∧ ts' = kept.map σ ∧
+        ∀ t ∈ kept, expand (σ t) = expand t
+
+-- ================================================================ the specification functions are the helpers'
+
+mutual
+theorem nodesOf_eq : ∀ t : Tree, nodesOf t = Tree.collect Node.ingredient Node.step t
+  | .ingredient .. => rfl
+  | .step d i => by simp only [nodesOf, Tree.collect, nodesOfList_eq i]
+  | .reference .. => rfl
+  | .sub b _ _ => by simp only [nodesOf, Tree.collect, nodesOf_eq b]
+theorem nodesOfList_eq : ∀ ts : List Tree, nodesOfList ts = Tree.collectList Node.ingredient Node.step ts
+  | [] => rfl
+  | t :: ts => by simp only [nodesOfList, Tree.collectList, nodesOf_eq t, nodesOfList_eq ts]
+end
+
+mutual
+theorem expand_eq : ∀ t : Tree, expand t = t.expandH
+  | .ingredient .. => rfl
+  | .step d i => by simp only [expand, Tree.expandH, expandList_eq i]
+  | .reference s _ _ => by simp only [expand, Tree.expandH, expand_eq s]
+  | .sub b _ _ => by simp only [expand, Tree.expandH, expand_eq b]
+theorem expandList_eq : ∀ ts : List Tree, expandList ts = Tree.expandHList ts
+  | [] => rfl
+  | t :: ts => by simp only [expandList, Tree.expandHList, expand_eq t, expandList_eq ts]
+end
+
+theorem inlineChain_of {σ : Tree → Tree} (h : InlineChainH σ) : InlineChain σ := by
+  induction h with
+  | nil => exact .nil
+  | step body ns sh idx a unwrap _ ih => exact .step body ns sh idx a unwrap ih
+
+theorem descends_of {bs bs' : List Block} (h : DescendsH bs bs') : Descends bs bs' := by
+  obtain ⟨σ, hσ, hl, hrel⟩ := h
+  refine ⟨σ, inlineChain_of hσ, hl, ?_⟩
+  intro b ts' hts'
+  obtain ⟨ts, kept, h1, h2, h3, h4⟩ := hrel b ts' hts'
+  exact ⟨ts, kept, h1, h2, h3, fun t ht => by rw [expand_eq, expand_eq]; exact h4 t ht⟩
+
+theorem nodesOfBlocks_perm_of_count {bs bs' : List Block}
+    (h : ∀ p : Node → Bool, (bs'.flatten.flatMap (Tree.collect Node.ingredient Node.step)).countP p =
+      (bs.flatten.flatMap (Tree.collect Node.ingredient Node.step)).countP p) :
+    (nodesOfBlocks bs').Perm (nodesOfBlocks bs) := by
+  have e : ∀ bs : List Block, nodesOfBlocks bs = bs.flatten.flatMap (Tree.collect Node.ingredient Node.step) := by
+    intro bs
+    unfold nodesOfBlocks
+    congr 1
+    funext t
+    exact nodesOf_eq t
+  rw [e, e, List.perm_iff_count]
+  intro a
+  exact h (· == a)
+
+-- ================================================================ C05.1 conservation
+
+/-- **C05.1, one iteration**: in every state the loop reaches, one successful `foldStep` keeps the written nodes up to
+    permutation — the nodes of the removed definition reappear exactly once, where its only reference stood -/
+theorem foldStep_nodes_perm (asts : List (List AStmt)) (bs : List Block) (st : CState)
+    (h : compileBlocks 0 {} asts = .ok (bs, st)) (n : Nat) (b1 b2 : List Block) (o1 o2 : List NamedOutput)
+    (h1 : foldAll n 0 bs st.outputs = .ok (b1, o1)) (h2 : foldStep n b1 o1 = .ok (b2, o2)) :
+    (nodesOfBlocks b2).Perm (nodesOfBlocks b1) := by
+  obtain ⟨b1', o1', hf, hinv, hcnt, _, _⟩ := fold_reachable asts bs st h n
+  rw [h1] at hf
+  cases hf
+  rcases foldStep_shape hinv with hs | ⟨d, hd⟩
+  · rw [hs] at h2; cases h2; exact List.Perm.refl _
+  · rw [hd.hstep] at h2
+    cases h2
+    exact nodesOfBlocks_perm_of_count (fun p => hd.collect_count Node.ingredient Node.step hinv hcnt p)
+
+/-- **C05.1, the whole loop** -/
+theorem foldAll_nodes_perm (asts : List (List AStmt)) (bs : List Block) (st : CState)
+    (h : compileBlocks 0 {} asts = .ok (bs, st)) (n : Nat) (b1 : List Block) (o1 : List NamedOutput)
+    (h1 : foldAll n 0 bs st.outputs = .ok (b1, o1)) : (nodesOfBlocks b1).Perm (nodesOfBlocks bs) := by
+  obtain ⟨b1', o1', hf, _, _, hc, _⟩ := fold_reachable asts bs st h n
+  rw [h1] at hf
+  cases hf
+  exact nodesOfBlocks_perm_of_count (fun p => hc Node.ingredient Node.step p)
+
+/-- **C05.1** the compiled recipe holds exactly the ingredient and step nodes of the elaborated description (which by
+    C01 are the written ones): nothing is lost, nothing is duplicated -/
+theorem compile_nodes_perm (srcs : List Str) (bs bs' : List Block) (st : CState)
+    (he : elabBlocks srcs = .ok (bs, st)) (hc : compile srcs = .ok bs') :
+    (nodesOfBlocks bs').Perm (nodesOfBlocks bs) := by
+  obtain ⟨asts, _, hcb⟩ := elabBlocks_ok he
+  obtain ⟨outs', hf⟩ := compile_ok_fold he hc
+  exact foldAll_nodes_perm asts bs st hcb _ bs' outs' hf
+
+-- ================================================================ C05.3 order, C05.2 expansion
+
+/-- **C05.3 / C05.2, the loop**: the remaining roots descend from the elaborated ones -/
+theorem foldAll_descends (asts : List (List AStmt)) (bs : List Block) (st : CState)
+    (h : compileBlocks 0 {} asts = .ok (bs, st)) (n : Nat) (b1 : List Block) (o1 : List NamedOutput)
+    (h1 : foldAll n 0 bs st.outputs = .ok (b1, o1)) : Descends bs b1 := by
+  obtain ⟨b1', o1', hf, _, _, _, hd⟩ := fold_reachable asts bs st h n
+  rw [h1] at hf
+  cases hf
+  exact descends_of hd
+
+/-- **C05.3 / C05.2** the roots of the compiled recipe descend from the elaborated roots -/
+theorem compile_descends (srcs : List Str) (bs bs' : List Block) (st : CState)
+    (he : elabBlocks srcs = .ok (bs, st)) (hc : compile srcs = .ok bs') : Descends bs bs' := by
+  obtain ⟨asts, _, hcb⟩ := elabBlocks_ok he
+  obtain ⟨outs', hf⟩ := compile_ok_fold he hc
+  exact foldAll_descends asts bs st hcb _ bs' outs' hf
+
+/-- **C05.3, by positions**: in every block no root is added, and there is an order-preserving injection `f` from the
+    positions of the remaining roots to the positions of the elaborated roots such that each remaining root is the
+    image of the original root under the composed inlining substitutions `σ` (the same `σ` for all blocks) -/
+theorem compile_roots_order (srcs : List Str) (bs bs' : List Block) (st : CState)
+    (he : elabBlocks srcs = .ok (bs, st)) (hc : compile srcs = .ok bs') :
+    bs'.length = bs.length ∧ ∃ σ : Tree → Tree, InlineChain σ ∧
+      ∀ (b : Nat) (ts' : List Tree), bs'[b]? = some ts' → ∃ ts, bs[b]? = some ts ∧ ts'.length ≤ ts.length ∧
+        ∃ f : Nat → Nat, (∀ i j, i < j → j < ts'.length → f i < f j) ∧
+          ∀ j t', ts'[j]? = some t' → ∃ t, ts[f j]? = some t ∧ t' = σ t ∧ expand t' = expand t := by
+  obtain ⟨σ, hσ, hl, hrel⟩ := compile_descends srcs bs bs' st he hc
+  refine ⟨hl, σ, hσ, ?_⟩
+  intro b ts' hts'
+  obtain ⟨ts, kept, hts, hsub, hmap, hexp⟩ := hrel b ts' hts'
+  obtain ⟨f, hmono, hget⟩ := sublist_index_map hsub
+  have hlen : ts'.length = kept.length := by rw [hmap, List.length_map]
+  refine ⟨ts, hts, by rw [hlen]; exact hsub.length_le, f, fun i j hij hj => hmono i j hij (by omega), ?_⟩
+  intro j t' hj
+  rw [hmap, List.getElem?_map] at hj
+  cases hk : kept[j]? with
+  | none => rw [hk] at hj; cases hj
+  | some t =>
+    rw [hk] at hj
+    simp only [Option.map_some, Option.some.injEq] at hj
+    have hjl : j < kept.length := (List.getElem?_eq_some_iff.mp hk).1
+    refine ⟨t, by rw [hget j hjl, hk], hj.symm, ?_⟩
+    rw [← hj]
+    exact hexp t (List.mem_of_getElem? hk)
+
+/-- **C05.2** every root of the compiled recipe has the expansion of an elaborated root of the same block -/
+theorem compile_expand (srcs : List Str) (bs bs' : List Block) (st : CState)
+    (he : elabBlocks srcs = .ok (bs, st)) (hc : compile srcs = .ok bs') (b : Nat) (ts' : List Tree)
+    (hb : bs'[b]? = some ts') : ∃ ts, bs[b]? = some ts ∧ ∀ t' ∈ ts', ∃ t ∈ ts, expand t' = expand t := by
+  obtain ⟨σ, _, _, hrel⟩ := compile_descends srcs bs bs' st he hc
+  obtain ⟨ts, kept, hts, hsub, hmap, hexp⟩ := hrel b ts' hb
+  refine ⟨ts, hts, ?_⟩
+  intro t' ht'
+  rw [hmap, List.mem_map] at ht'
+  obtain ⟨t, ht, rfl⟩ := ht'
+  exact ⟨t, hsub.subset ht, hexp t ht⟩
+
+-- ================================================================ non-vacuity: a concrete two-block program
+section Examples
+private def str (s : Str) : AString := [.sub 0 s]
+/-- block 0: `A := mix(FIG)`, `B := heat(A)`, `C = serve(B, RYE)`; block 1: `eat(C)`.
+    `A` is folded into `B` and `B` into `C` (nested definitions, kept as sub recipes because of `:=`);
+    `C` is referenced from the other block and stays a root. -/
+private def prog : List (List AStmt) :=
+  [[ ⟨.step (str ['m','i','x']) [.ref (str ['F','I','G']) none], some [str ['A']], true⟩,
+     ⟨.step (str ['h','e','a','t']) [.ref (str ['A']) none], some [str ['B']], true⟩,
+     ⟨.step (str ['s','e','r','v','e']) [.ref (str ['B']) none, .ref (str ['R','Y','E']) none], some [str ['C']], false⟩ ],
+   [ ⟨.step (str ['e','a','t']) [.ref (str ['C']) none], none, false⟩ ]]
+
+/-- the loop on `prog`: three roots + one become one + one; the two nested definitions are inlinable, the one
+    referenced from the other block is not; the written nodes are permuted (not lost, not duplicated) -/
+example : (match compileBlocks 0 {} prog with
+    | .ok (bs, st) =>
+      match foldAll st.outputs.length 0 bs st.outputs with
+      | .ok (bs', _) =>
+        decide (bs.map List.length = [3, 1] ∧ bs'.map List.length = [1, 1] ∧
+          st.outputs.map NamedOutput.canBeInlined = [true, true, false] ∧
+          nodesOfBlocks bs = [.step [.text ['m','i','x']] 1, .ingredient [.text ['F','I','G']] none,
+            .step [.text ['h','e','a','t']] 1, .step [.text ['s','e','r','v','e']] 2,
+            .ingredient [.text ['R','Y','E']] none, .step [.text ['e','a','t']] 1] ∧
+          nodesOfBlocks bs' = [.step [.text ['s','e','r','v','e']] 2, .step [.text ['h','e','a','t']] 1,
+            .step [.text ['m','i','x']] 1, .ingredient [.text ['F','I','G']] none,
+            .ingredient [.text ['R','Y','E']] none, .step [.text ['e','a','t']] 1])
+      | .error _ => false
+    | .error _ => false) = true := by decide +kernel
+
+private theorem prog_elab : ∃ bs st, compileBlocks 0 {} prog = .ok (bs, st) := by
+  cases h : compileBlocks 0 {} prog with
+  | ok p => exact ⟨p.1, p.2, rfl⟩
+  | error e =>
+    have : (compileBlocks 0 {} prog).toBool = true := by decide +kernel
+    rw [h] at this; cases this
+
+/-- the hypotheses of the theorems are satisfiable: they apply to `prog` -/
+example : ∃ bs st bs' outs', compileBlocks 0 {} prog = .ok (bs, st) ∧
+    foldAll st.outputs.length 0 bs st.outputs = .ok (bs', outs') ∧
+    (nodesOfBlocks bs').Perm (nodesOfBlocks bs) ∧ Descends bs bs' := by
+  obtain ⟨bs, st, h⟩ := prog_elab
+  obtain ⟨bs', outs', hf, _⟩ := fold_reachable prog bs st h st.outputs.length
+  exact ⟨bs, st, bs', outs', h, hf, foldAll_nodes_perm prog bs st h _ bs' outs' hf,
+    foldAll_descends prog bs st h _ bs' outs' hf⟩
+end Examples
 
 end RG.C05
